@@ -377,13 +377,16 @@ func (e *eng) varCase(r layRow, i int) {
 
 // undefined variable at command position k of a 3-command task
 // the ways a command can refer to an undefined variable
-var undefForms = []string{"{{.nosuch}}", "{{ if .nosuch }}yes{{ end }}", "{{ with .nosuch }}{{ . }}{{ end }}", "{{ print .nosuch }}", "{{ printf \"%v\" .nosuch }}", "{{ .nosuch | printf \"%s\" }}", "{{ .nosuch.deeper }}"}
+// (the last three combine a reference to the DEFINED variable dv - through the `default` function
+// or plainly - with an undefined one in the same string)
+var undefForms = []string{"{{.nosuch}}", "{{ if .nosuch }}yes{{ end }}", "{{ with .nosuch }}{{ . }}{{ end }}", "{{ print .nosuch }}", "{{ printf \"%v\" .nosuch }}", "{{ .nosuch | printf \"%s\" }}", "{{ .nosuch.deeper }}",
+	"{{ .dv | default \"x\" }}-{{ .nosuch }}", "{{ default \"x\" .dv }} {{ .nosuch }}", "{{ .dv }}{{ .nosuch }}"}
 
 func (e *eng) undefinedAt(k int, allow bool) {
 	d := e.env.Sub("undef")
 	trace := filepath.Join(d, "trace")
 	var y strings.Builder
-	y.WriteString("tasks:\n  t:\n")
+	y.WriteString("tasks:\n  t:\n    variables:\n      dv: defined\n")
 	if allow {
 		y.WriteString("    allow_failure: true\n")
 	}
